@@ -197,7 +197,8 @@ def gen_gsc(rng, kind: str | None = None, kinds=None) -> dict:
     if kind == "evals":
         return {"k": "evals", "n": rng.choice([1, rng.randint(40, 1500), rng.randint(40, 1500), rng.randint(40, 400)])}
     if kind == "fevals":
-        return {"k": "fevals", "n": rng.randint(40, 1500), "w": rng.choice(["equal", "root", None, "list"])}
+        # the documented strategies are the strings "equal" / "root" (WeightingStrategy is a str-Enum): both spellings are legal
+        return {"k": "fevals", "n": rng.randint(40, 1500), "w": rng.choice(["equal", "root", None, "list"]), "w_spelling": rng.choice(["enum", "str"])}
     if kind == "precision":
         return {"k": "precision", "eps": rng.choice([1e-1, 1e-2, 1e-4])}
     if kind == "nononroot":
